@@ -128,11 +128,6 @@ static void c5_after_corrupt(IN_mr *in, zckCtx *zck, bool req[VERIF_N], int vali
             if(m_woff[k] == in->b) last = (int)k;
         }
     V_ASSERT(!b_in_bad || (last >= 0 && m_wval[last] == 0), "C05.set_chunk_valid.mismatch_means_zero_filled");
-    V_COVER(bad == VERIF_N - 1 && VERIF_N > 1 && req[0] && b_chunks[0].valid == 1 && b_in_bad);      /* first chunk accepted, last one refused and zeroed */
-    V_COVER(bad == 0 && in->nc == VERIF_N && req[VERIF_N - 1] && b_chunks[VERIF_N - 1].valid == 0);  /* refused before the next chunk was started */
-#ifdef VERIF_C04_VIA_CB
-    V_COVER(m_ucb > 0);                                                                                 /* client callback saw the accepted first piece */
-#endif
 }
 
 void h_c04_compose(void) {
@@ -252,8 +247,13 @@ void h_c04_compose(void) {
     V_ASSERT(zck->error_state == 0, "C04.compose.no_error_raised");
 #ifdef VERIF_C05_CORRUPT
     c5_after_corrupt(in, zck, req, valid0, badchunk, fed_ok);
-    return;
+    /* (cover goals must live in the harness function: the driver only collects those) */
+    V_COVER(badchunk == VERIF_N - 1 && VERIF_N > 1 && req[0] && b_chunks[0].valid == 1 && IN_EXTENT(in, badchunk, in->b));   /* first chunk accepted, last one refused and zeroed */
+    V_COVER(badchunk == 0 && in->nc == VERIF_N && req[VERIF_N - 1] && b_chunks[VERIF_N - 1].valid == 0);                      /* refused before the next chunk was started */
+#if defined(VERIF_C04_VIA_CB) && !defined(VERIF_C04_ONECALL)
+    V_COVER(m_ucb > 0 && !fed_ok);                                                                                          /* client callback saw the accepted first piece, not the refused one */
 #endif
+#else
 
     /* ---- 4. what the round achieved ---- */
     for(int i = 0; i < VERIF_N; i++)
@@ -298,4 +298,5 @@ void h_c04_compose(void) {
 #else
     V_COVER(missing0 == 0 && n == 0 && in->nc == VERIF_N);                    /* nothing missing, nothing requested, nothing fed */
 #endif
+#endif /* !VERIF_C05_CORRUPT */
 }
